@@ -151,6 +151,18 @@ def run(ctx):
     small, rnd = [], []
     if runner.ok:
         batches, small, rnd = build(ctx)
+        # the object's generators must start with the CURRENT representation: enumerate, move the object to
+        # another rotation through `turns`, enumerate again (model: Model/Views.v state machine of C03)
+        hist = []
+        for c_ in [x for x in small if "+" in x["sst"]][: (400 if ctx.tier == "quick" else 6000)]:
+            s_ = c_["sst"]
+            n_ = s_.count("+") + 1
+            sq_ = list(c_["seq"])
+            v_ = ctx.rng.randrange(-n_, 2 * n_ + 1)
+            hist.append((("c03_history", [sq_, list(s_), [["rotate_pt"], ["rotate"], ["set_turns", v_], ["rotate_pt"], ["rotate"],
+                                                           ["set_turns", v_ + 1], ["rotate"], ["rotate_pt"]]]),
+                         {"seq": sq_, "sst": s_}))
+        batches["generators-after-turns"] = hist
         for name, pairs in batches.items():
             reqs = [p[0] for p in pairs]
             ds = correspond(ctx, name, reqs)
